@@ -20,6 +20,10 @@
 (*   ReturnBalanced  C08  at a return (j through r0..r2) fp and ap equal the activation's entry values *)
 (*   TryBalanced     C08/C02  at end_try_k (fp, ap) equal the values recorded at try entry             *)
 (*   DefeatWordReset C02/C03  at end_try_k the variable defeat word holds the address of `halt`        *)
+(*   GuardCovers     C04  a frame write never goes deeper than what the stack guards of its activation *)
+(*                   have established (entry guard: fp - ap >= K; dynamic array guard: X stays free    *)
+(*                   after the allocation), whatever the actual stack size: a guard that is too small  *)
+(*                   is seen at a generous stack, not only when the stack is exactly full              *)
 (* Diagnostic only (never a verdict): ApAligned.                                                      *)
 (*                                                                                                    *)
 (* Provenance of a value: F = read from fp; A(v) = read from ap when ap = v; G/C(lo,hi) = address of a *)
@@ -56,13 +60,19 @@ SetTag(tags, a, n, tag) ==
    IN [b \in dom |-> IF b = a THEN tag ELSE tags[b]]
 
 (* ------------------------------------------------------------------ access rule *)
+\* s.gd: one record per guarded activation [fp, apB, gB]: "when ap = apB at least gB bytes are free below fp", hence
+\* gB - (ap - apB) bytes for the present ap.  Frames of callees without a guard (library routines) are charged to
+\* the innermost guarded activation, as the compiler does.
+GuardBad(s, a, ap) == /\ Len(s.gd) > 0
+                      /\ LET g == s.gd[Len(s.gd)] IN g.fp >= a /\ (g.fp - a) > g.gB - (ap - g.apB)
 InSome(arrs, a, n) == \E k \in 1..Len(arrs) : arrs[k].lo <= a /\ a + n <= arrs[k].hi
 AccessAlarm(s, prov, a, n, write, sec) ==
    LET ap == CurAp  fp == CurFp IN
    IF sec = "c" THEN ""
    ELSE LET w == IF write /\ (a < RT.sstart \/ (RT.tryfp >= 0 /\ a + n > RT.tryfp)) THEN "AbiWordsSafe" ELSE "" IN
    IF w # "" THEN w
-   ELSE IF prov.t = "F" THEN (IF ap <= a /\ a + n <= fp THEN "" ELSE "FrameInGap")
+   ELSE IF prov.t = "F" THEN (IF ~(ap <= a /\ a + n <= fp) THEN "FrameInGap"
+                              ELSE IF write /\ GuardBad(s, a, ap) THEN "GuardCovers" ELSE "")
    ELSE IF prov.t = "A" THEN
         LET starts == {k \in 1..Len(s.arrays) : s.arrays[k].lo = prov.x}
             newest == Len(s.arrays)
@@ -85,7 +95,8 @@ ApWrite(s, old, new) ==
 ApAlarm(new, fp) == IF RT.sstart <= new /\ new <= fp THEN "" ELSE "ApFpOrdered"
 FpWrite(s, old, new, ismov) ==
    IF new > old
-   THEN LET s1 == [s EXCEPT !.marks = {m \in @ : m.fp >= new}, !.trys = SelectSeq(@, LAMBDA e : e.fp >= new)] IN
+   THEN LET s1 == [s EXCEPT !.marks = {m \in @ : m.fp >= new}, !.trys = SelectSeq(@, LAMBDA e : e.fp >= new),
+                            !.gd = SelectSeq(@, LAMBDA e : e.fp >= new)] IN
         IF ismov THEN [s1 EXCEPT !.acts = SelectSeq(@, LAMBDA e : e.fp >= new)] ELSE s1
    ELSE s
 FpAlarm(ap, new) == IF ap <= new /\ new <= RT.send THEN "" ELSE "ApFpOrdered"
@@ -135,7 +146,17 @@ Arrive(s) ==
        ends == StemIds("end_try")
        s4 == IF ends = {} THEN s3
              ELSE [s3 EXCEPT !.trys = SelectSeq(@, LAMBDA e : ~(e.k \in ends /\ e.fp <= fp))]
-   IN s4
+       \* stack guards (reached only when the guard has passed: the other path ends in stack_overflow)
+       g == IF pc \in RT.guardpcs THEN RT.guards[pc] ELSE [k |-> "n", v |-> 0]
+       s5 == IF g.k = "e"
+             THEN [s4 EXCEPT !.gd = Append(SelectSeq(@, LAMBDA e : e.fp > fp), [fp |-> fp, apB |-> ap, gB |-> g.v])]
+             ELSE IF g.k = "v" /\ Len(s4.gd) > 0 /\ s4.gd[Len(s4.gd)].fp = fp /\ Ins.op = "add" /\ Ins.a.v = RT.ap
+             THEN LET t == s4.gd[Len(s4.gd)]
+                      apA == ap + Addr(Val(Ins.c))
+                      old == t.gB - (apA - t.apB)
+                  IN [s4 EXCEPT !.gd[Len(s4.gd)] = [fp |-> fp, apB |-> apA, gB |-> IF old > g.v THEN old ELSE g.v]]
+             ELSE s4
+   IN s5
 
 (* ------------------------------------------------------------------ effect of a sequential instruction *)
 \* provenance carried by an arithmetic result
@@ -217,7 +238,7 @@ RTStep ==
            /\ UNCHANGED shstack
 
 ShInit == /\ sh = [tags |-> IF Monitors THEN Progs[prog].inits[inp].tags ELSE <<>>,
-                   arrays |-> <<>>, acts |-> <<>>, marks |-> {}, trys |-> <<>>, byjump |-> TRUE, from |-> 0 - 1]
+                   arrays |-> <<>>, acts |-> <<>>, marks |-> {}, trys |-> <<>>, gd |-> <<>>, byjump |-> TRUE, from |-> 0 - 1]
           /\ shstack = <<>> /\ alarm = ""
 RTInit == MInit /\ ShInit
 
